@@ -140,7 +140,11 @@ def cases(shard, tier):
                   ('FSINGL', [{'pat32': 0}, {'pat32': 0x80000000}]),
                   ('IDENT', [{'v': 1}, {'v': 1.0}, {'v': True}]),
                   ('ASCII', [{'v': 1}, {'v': 1.0}, {'v': True}, {'v': 0}, {'v': False}, {'v': 0.0}]),
-                  ('FDOUBL', [{'v': 1}, {'v': True}, {'v': 1.0}])]
+                  ('FDOUBL', [{'v': 1}, {'v': True}, {'v': 1.0}]),
+                  # date-times that compare (and hash) equal but are different instants: the same wall-clock reading in
+                  # the hour repeated when daylight-saving time ends, told apart only by `fold` (PEP 495); and equal
+                  # instants spelled in different zones
+                  ('DTIME', [{'fold': 0}, {'fold': 1}, {'fold': 0, 'naive_utc': True}, {'aware': 60}, {'aware': 0}])]
         for code, vals in groups:
             for a, b in itertools.permutations(range(len(vals)), 2):
                 yield {'code': 'WARM', 'under': code, 'first': vals[a], 'second': vals[b]}
@@ -162,7 +166,48 @@ class _Item:
         return write_struct_obname(self)
 
 
+class _EndOfDST(__import__('datetime').tzinfo):
+    """UTC+2 until 2021-10-31 03:00 local, UTC+1 afterwards; the hour 02:00-03:00 occurs twice (fold 0 / 1)."""
+
+    def utcoffset(self, dt):
+        naive = dt.replace(tzinfo=None, fold=0)
+        if naive < datetime(2021, 10, 31, 2):
+            return timedelta(hours=2)
+        if naive < datetime(2021, 10, 31, 3):
+            return timedelta(hours=1 if dt.fold else 2)
+        return timedelta(hours=1)
+
+    def dst(self, dt):
+        return self.utcoffset(dt) - timedelta(hours=1)
+
+    def tzname(self, dt):
+        return 'X'
+
+    def fromutc(self, dt):
+        u = dt.replace(tzinfo=None)
+        if u < datetime(2021, 10, 31, 1):
+            return (u + timedelta(hours=2)).replace(tzinfo=self)
+        r = (u + timedelta(hours=1)).replace(tzinfo=self)
+        return r.replace(fold=1) if u < datetime(2021, 10, 31, 2) else r
+
+
+_END_OF_DST = _EndOfDST()        # ONE zone object: date-times sharing their tzinfo compare by wall-clock fields only
+
+
+def _dtime_pair_value(d):
+    """(value handed to the encoder, the UTC instant it denotes)"""
+    if 'fold' in d and not d.get('naive_utc'):
+        v = datetime(2021, 10, 31, 2, 30, tzinfo=_END_OF_DST, fold=d['fold'])
+        return v, datetime(2021, 10, 31, 1 if d['fold'] else 0, 30)
+    if d.get('naive_utc'):
+        return datetime(2021, 10, 31, 2, 30), datetime(2021, 10, 31, 2, 30)      # the process zone is UTC
+    v = datetime(2021, 10, 31, 2 + d['aware'] // 60, 30, tzinfo=timezone(timedelta(minutes=d['aware'])))
+    return v, datetime(2021, 10, 31, 2, 30)
+
+
 def _value_of(d):
+    if 'fold' in d or 'aware' in d:
+        return _dtime_pair_value(d)[0]
     if 'pat' in d:
         return struct.unpack('>d', d['pat'].to_bytes(8, 'big'))[0]
     if 'pat32' in d:
@@ -292,6 +337,13 @@ def run_case(case):
         b1, e1 = enc(under, v1)
         b2, e2 = enc(under, v2)
         cls = 'warm'
+        if under == 'DTIME':
+            utc = _dtime_pair_value(case['second'])[1]
+            got, derr = decode('DTIME', b2) if e2 is None else (None, e2)
+            if derr or abs((got['dt'] - utc).total_seconds()) > 0.001:
+                viol.append(("C06:warm-cache:DTIME", f"after encoding {v1!r}, DTIME of {v2!r} (fold={v2.fold}) gives "
+                                                     f"{(b2 or b'').hex()} = {got and got['dt']}, the instant is {utc} UTC {derr or ''}"))
+            return Outcome(cls, viol, True, digest=(b2 or b'').hex())
         if e2 is None and b2 != _expected_bytes(under, v2):
             viol.append((f"C06:warm-cache:{under}", f"after encoding {v1!r}, {under} of {v2!r} gives {b2.hex()} "
                                                     f"instead of {_expected_bytes(under, v2).hex()}"))
